@@ -269,8 +269,9 @@ class Gen:
                 items[first_arg + k] = items[first_arg + k][:-1] + " (cx %s))" % " ".join(chosen)
                 self.count("args-with-conflicts")
         # round 4: argument groups (Arg::groups; _build_self makes the ArgGroups) and conflicts_with naming a GROUP: zsh
-        # expands the group to its members.  Not on a global argument (finding zsh-global-conflicts-group: the generator
-        # panics; profile "global_group" asks for exactly that), members in any order, possibly the conflicting arg itself
+        # expands the group to its members.  By default not on a global argument (its targets must exist in every
+        # subcommand it is copied into); profile "global_group" asks for exactly that (the repaired finding
+        # zsh-global-conflicts-group), members in any order, possibly the conflicting arg itself
         nargs = len(items) - first_arg
         if nargs >= 2 and r.random() < self.opt("groups", 0.2):
             gid = "g%d" % self.serial()
@@ -285,8 +286,10 @@ class Gen:
             self.count("groups")
             want_global = bool(self.opt("global_group"))
             if want_global:
-                # the family of the finding: a GLOBAL argument conflicts with a group; the members are global too, so
-                # the group exists wherever the argument is propagated (clap's configuration check accepts the tree)
+                # the family of the repaired finding: a GLOBAL argument conflicts with a group; the members are global
+                # too, so the group exists wherever the argument is propagated (clap's configuration check accepts the
+                # tree).  In a subcommand the pair is declared by the subcommand itself: the group of a subcommand
+                # that contains the argument, not of the command the lookup runs on
                 j = next(j for j in range(nargs) if j not in members[:1])
                 for m in set(members + [j]):
                     if "(global)" not in items[first_arg + m]:
@@ -566,34 +569,8 @@ def mangle_unsafe(case, built_root=None):
 
 FAMILIES = {
     "bash-dunder-lookup", "alias-without-primary", "values-not-in-powershell-elvish", "nushell-subcommand-aliases",
-    "bash-cur-is-subcommand", "zsh-optional-value", "fish-positional-values", "zsh-global-conflicts-group",
+    "bash-cur-is-subcommand", "zsh-optional-value", "fish-positional-values",
 }
-
-
-def global_conflicts_group(case):
-    """the family zsh-global-conflicts-group, read off the case: some command of the spec declares a GLOBAL argument
-    whose conflicts_with names an argument GROUP of that command (an id some argument of the command lists in
-    (grp ..)) that is not also the id of an argument"""
-    try:
-        v = sx_parse(case)
-    except Exception:
-        return False
-
-    def go(c):
-        args = [it for it in c[2:] if isinstance(it, list) and it and it[0] == "arg"]
-        ids = {a[1] for a in args}
-        groups = set()
-        for a in args:
-            for x in a[2:]:
-                if isinstance(x, list) and x and x[0] == "grp":
-                    groups.update(x[1:])
-        for a in args:
-            glob = any(isinstance(x, list) and x and x[0] == "global" for x in a[2:])
-            cx = [y for x in a[2:] if isinstance(x, list) and x and x[0] == "cx" for y in x[1:]]
-            if glob and any(y in groups and y not in ids for y in cx):
-                return True
-        return any(go(it) for it in c[2:] if isinstance(it, list) and it and it[0] == "cmd")
-    return go(v[3])
 
 
 def token_family(shell, kind, tok, a):
@@ -716,9 +693,6 @@ def failures(case, impl):
     unsafe = shell == "bash" and mangle_unsafe(case)
     if impl.startswith("PANIC") or impl.startswith("ABORT"):
         fam = "bash-dunder-lookup" if unsafe and ("unwrap" in impl or "None" in impl) else None
-        if (shell == "zsh" and "The passed arg conflicts with an arg unknown to the cmd" in impl
-                and global_conflicts_group(case)):
-            fam = "zsh-global-conflicts-group"
         return [(fam, "the %s generator does not terminate normally on a valid command tree: %s" % (shell, impl[:200]))]
     out = []
     it = top_items(impl)
@@ -854,8 +828,8 @@ def classify_known(stream, case, impl, failure):
         return None
     if failure == "diff":
         # the model has no counterpart only where the implementation panics inside the known family
-        if impl.startswith("PANIC") and fs and fs[0][0] in ("bash-dunder-lookup", "zsh-global-conflicts-group"):
-            return fs[0][0]      # (the aot area has no zsh model; in the zsh area the model panics too: no difference)
+        if impl.startswith("PANIC") and fs and fs[0][0] == "bash-dunder-lookup":
+            return "bash-dunder-lookup"
         return None
     if fs and all(f is not None for f, m in fs):
         return fs[0][0]
@@ -1370,8 +1344,9 @@ def streams(tier, rng):
              # round 4: value names, value terminators, last(true), a multi-valued positional before the last one, argument
              # groups and conflicts_with naming a group (the exclusion list expands the group), all frequent
              ({"ext": 0.7, "groups": 0.7, "conflicts": 0.5}, 45 if quick else 700),
-             # finding zsh-global-conflicts-group (class boundary of totality): a global argument conflicting with a group
-             ({"groups": 1.0, "global_group": True, "conflicts": 0.0}, 4 if quick else 40),
+             # a GLOBAL argument conflicting with a group (the repaired finding zsh-global-conflicts-group: generation used
+             # to panic; now the exclusion list expands the group, at the root and in every subcommand the argument reaches)
+             ({"groups": 1.0, "global_group": True, "conflicts": 0.0}, 8 if quick else 80),
              ({"bin": "b in"}, 4 if quick else 40), ({"bin": "é-x"}, 4 if quick else 40)]
     for prof, n in plans:
         for _ in range(n):
@@ -1479,7 +1454,7 @@ RULE = RULE + ("  Round 4: in every stream arguments also carry value names (opt
                "positionals: one), value terminators on multi-valued positionals, last(true) on the final positional, a "
                "multi-valued positional before a last one (with / without terminator), argument groups (Arg::groups) and "
                "conflicts_with naming a group (also twice, also beside argument ids); the zsh-model stream has a dense plan of "
-               "these and a plan of the family zsh-global-conflicts-group (a global argument conflicting with a group).")
+               "these and a plan of global arguments conflicting with a group (the repaired finding zsh-global-conflicts-group).")
 TECHNIQUE = TECHNIQUE + ("; round 4: the model's argument record extended by value_names, value_terminator, last, blacklist and "
                          "groups (other five generator models and their proofs untouched), zsh's get_arg_conflicts_with with "
                          "groups and with its panic sites as visible failures, every zsh theorem re-proved, the class kept by "
@@ -1501,10 +1476,14 @@ LEVEL_TEXT = (LEVEL_TEXT +
               "what its entries resolve to, in blacklist order (C16_zsh_conflicts_list).  The generator fails ONLY through a bin "
               "name or an unresolvable conflict (C16_zsh_args_fail_only_on_conflicts); in the local boolean class (every entry "
               "of an option / flag names an argument of its command or, if the option is not global, a group of it) nothing "
-              "panics and, with exact lookup, a script is written (C16_zsh_total_local).  The boundary is a finding: clap's "
-              "configuration check accepts a GLOBAL argument that conflicts with a GROUP, get_global_arg_conflicts_with looks "
-              "among arguments only and expects -- a one-node tree for which no script is written, whatever the texts "
-              "(C16_zsh_global_conflicts_group_refuted; the real generator panics; recorded as zsh-global-conflicts-group).  "
+              "panics and, with exact lookup, a script is written (C16_zsh_total_local).  That class's boundary was a finding, "
+              "now repaired: clap's configuration check accepts a GLOBAL argument that conflicts with a GROUP, "
+              "get_global_arg_conflicts_with looked among arguments only and expected (zsh-global-conflicts-group); the repaired "
+              "function falls back to the group of that id in the command or the subcommands containing the argument, the model "
+              "follows it, the local class is exactly clap's check on the entries of options / flags (no extra clause for "
+              "global arguments: C16_zsh_conflicts_local_meaning), a wider parent-aware class is proved sufficient too "
+              "(C16_zsh_conflicts_parent_class) and the witness trees provably get their scripts "
+              "(C16_zsh_global_conflicts_group_fixed).  "
               "From the USER's tree: Command::build keeps the class 'an argument that declares conflicts is not global and its "
               "entries name arguments or groups of its command' (it only appends arguments with empty blacklists) and that class "
               "gives the local class at every built node, so exact lookup, dispatch, coverage and totality hold for the file "
@@ -1516,8 +1495,8 @@ LEVEL_NOTE = LEVEL_NOTE.replace(
     "value_names, value_terminator, last, groups and conflicts on global arguments are outside the model, ",
     "zsh: value_names, value_terminator, last, conflicts_with (also over argument groups) are in the model since round 4 "
     "(groups as _build_self makes them from Arg::group(s); explicit ArgGroup declarations and Arg::index are not), the "
-    "panic sites of get_arg_conflicts_with are visible failures excluded by a local boolean class (a global argument "
-    "conflicting with a group is outside it: the recorded finding zsh-global-conflicts-group); from the user's tree the class "
+    "panic sites of get_arg_conflicts_with are visible failures excluded by a local boolean class (= clap's configuration "
+    "check on the entries; the finding zsh-global-conflicts-group on its former boundary is repaired); from the user's tree the class "
     "asks conflict-declaring arguments to be non-global; two value names on a positional are not generated (the bash "
     "semantics model has one opts word per positional); ")
 assert "since round 4" in LEVEL_NOTE
